@@ -1710,3 +1710,23 @@ package sio
 //@ func (*serverConn).closedWith
 //@   requires c != nil
 //@   ensures closed == c.closed && reason == c.closeReason [C06.conn.closed.mark.read]
+
+// C03 (retry queue): the outcome of an attempt - ack or timeout - is handled only while ITS packet is still at the head
+// of the queue: then, and only then, the head is removed (at most once per outcome) and the user's callback is called
+// (at most once, and only together with that removal). The outcome of another attempt of a packet that has already
+// been acknowledged or discarded removes nothing and calls nothing.
+//@ func (*clientPacketQueue).addToQueue$1
+//@   opt safety off
+//@   requires pq != nil && pq.debug != nil && pq.socket != nil && pq.socket.config != nil && packet != nil && packet.mu != nil && len(args) >= 1
+//@   ghost pops int = 0
+//@   ghost usercalls int = 0
+//@   callsite IsNil skip
+//@   callsite (*clientPacketQueue).drainQueue skip
+//@   onstore queuedPackets
+//@     requires recv == pq && len(pq.queuedPackets) >= 1 && pq.queuedPackets[0] == packet && pops == 0 [C03.retry.outcome.removes.only.its.own.packet]
+//@     update pops = pops + 1
+//@   callsite Call skip
+//@     requires pops == 1 && usercalls == 0 && haveAck [C03.retry.callback.only.with.the.removal]
+//@     update usercalls = usercalls + 1
+//@   ensures usercalls <= 1 && pops <= 1 [C03.retry.one.outcome.handled]
+//@   ensures !(old(len(pq.queuedPackets)) >= 1 && old(pq.queuedPackets[0]) == packet) ==> pops == 0 && usercalls == 0 [C03.retry.stale.outcome.ignored]
